@@ -130,4 +130,23 @@ CHECKS = {
                 "classified by its wait-for graph (who waits for which named lock held by whom); non-trivial = nested submissions or >= 2 threads",
         "assumptions": ["PARTIAL: the lock-order theorem is proved for arbitrary lock programs; that the library's composed lock programs respect one order (outside G10) is decided by the explored schedules, not proved"],
     },
+    "C03": {
+        "modules": ["p_c03"],
+        "rule": "seeded scenarios on real stacks (depth 1-4, sync / real thread pool) with a virtual clock: callables that succeed, fail "
+                "(retries with back-off), block until t=2, futures cancelled through the returned future at t=0/1/2, small (3) or "
+                "effectively infinite timeouts; x {random, sticky, PCT} schedules; monitor: every returned future is terminal when nothing "
+                "can happen any more, and finished no later than the virtual time implied by the configured delays (so a lost wake-up that "
+                "is only rescued by a 2 s / 30 s fallback timer is reported); pending futures are classified by the chain of library "
+                "futures below them; non-trivial = a cancel or a retry and a preemption",
+        "assumptions": ["the wake-up protocol is proved generically (EventLoop.v); that each worker loop is an instance is validated by the lockstep machines (Retry) and the virtual-time bound"],
+    },
+    "C20": {
+        "modules": ["p_c20"],
+        "rule": "seeded scenarios on real stacks with a stand-in prometheus_client: 1-5 submissions (success, failure with retries, blocked), "
+                "cancels at t=0/1/2/4 (queued, between retries, in flight), small or infinite timeouts, raising poll functions, optional early "
+                "shutdown; at final quiescence every gauge of the stack must be 0, no gauge may ever go negative, counters future_total / "
+                "future_cancel / future_error of the user-visible future type, poll_total / poll_error and exec_total must equal the observed "
+                "events; non-trivial = a cancel or a failing first attempt",
+        "assumptions": ["gauge/counter pairing is modelled abstractly (Model/Metrics.v); the tie is the registry-vs-reality comparison of this run"],
+    },
 }
